@@ -9,7 +9,7 @@
    is recorded as known finding (known_findings.txt); the check replays it on the implementation.
    The whole-scenario ledger (every object destroyed => every descriptor closed exactly once) is checked on the traces
    of the fault-enumeration harness, which the model must reproduce entry by entry (gen/c14.py). *)
-From SP Require Import Base ListAux Os OsLemmas WaitLemmas SocketModel FdLemmas FdProgram Objects DriverModel Sim.
+From SP Require Import Base ListAux Os OsLemmas WaitLemmas SocketModel FdLemmas FdProgram FdDriver Objects DriverModel Sim.
 From Coq Require Import Permutation.
 Local Open Scope Z_scope.
 
@@ -28,6 +28,17 @@ Proof. exact acceptor_new_ledger. Qed.
 Theorem accept_ledger : forall lfd (s : os ext) r s',
   0 <= o_nextfd s -> accept_now lfd s = (r, s') -> exists new, accept_spec lfd s s' r new.
 Proof. exact accept_now_ledger. Qed.
+
+(* Driver::Driver(): the two sockets of the signalling pipe — both open and nothing failed, or the first failing call's errno
+   thrown and both (or the one that existed) closed again exactly once *)
+Theorem driver_constructor_ledger : forall (s : os ext) r s',
+  0 <= o_nextfd s -> driver_new s = (r, s') -> exists new, drv_spec s s' r new.
+Proof. exact driver_new_ledger. Qed.
+
+Example driver_ctor_fault :
+  let '(r, s) := driver_new (os_init ext_init [] [(3, 98)]) in
+  r = Exn (SysErr 98) /\ opened (o_trace s) = [1000; 1001] /\ closed (o_trace s) = [1001; 1000].
+Proof. vm_compute. repeat split. Qed.
 
 (* a run of set-up calls on one descriptor stops at the first failure and throws exactly its errno *)
 Theorem first_failure_is_thrown : forall ws fd, Forall plain ws -> forall (s : os ext) r s',
@@ -96,6 +107,7 @@ Print Assumptions tcp_constructor_ledger.
 Print Assumptions udp_constructor_ledger.
 Print Assumptions acceptor_constructor_ledger.
 Print Assumptions accept_ledger.
+Print Assumptions driver_constructor_ledger.
 Print Assumptions first_failure_is_thrown.
 Print Assumptions silent_drop_refuted.
 Print Assumptions ledger_balanced_all_programs.
